@@ -147,6 +147,11 @@ def body_sets(inp, H, W, kernels):
         key = "view_blurring_mask_%d_%d" % (ky, kx)
         A[key] = hx.attempt(lambda: np.array(m.derive_mask.blurring_from(kernel_shape_native=(ky, kx)).array, dtype=bool))
         E[key] = rb
+        if isinstance(rb, hx.Raised):
+            # the coordinate-grid view must refuse exactly when the mask view refuses (seed C10-f)
+            key = "view_blurring_grid_%d_%d" % (ky, kx)
+            A[key] = hx.attempt(lambda: aa.Grid2D.blurring_grid_from(mask=m, kernel_shape_native=(ky, kx)).slim.array)
+            E[key] = rb
         if not isinstance(rb, hx.Raised) and not rb.all():
             key = "view_blurring_grid_%d_%d" % (ky, kx)
             A[key] = hx.attempt(lambda: aa.Grid2D.blurring_grid_from(mask=m, kernel_shape_native=(ky, kx)).slim.array)
